@@ -135,7 +135,7 @@ def check_signatures(ctx, what, obj, mk, h):
     # signing-capable subkeys carry a valid embedded primary-key binding
     for c in tk.subkeys:
         ms = [s for s in mk.subs if s.fp == c.key.fingerprint]
-        if not ms or c.key.alg in (18, 16):
+        if not ms or c.key.alg in (18, 16, 2):
             continue
         for b in c.sigs:
             sg = rsigs.parse_sig(b)
